@@ -174,7 +174,7 @@ func (h *heartbeatManager) checkSessions() {
 // pingSession sends a single heartbeat ping to a specific session
 func (h *heartbeatManager) pingSession(sessionID string) bool {
 	session := h.primary.getSession(sessionID)
-	if session == nil || !session.Connected || !session.Active {
+	if session == nil || !session.alive() {
 		return false
 	}
 
